@@ -11,6 +11,7 @@ import (
 	"fmt"
 	"math/rand"
 	"os"
+	"runtime"
 	"sort"
 	"strings"
 
@@ -128,10 +129,78 @@ func main() {
 		}
 		enc.Encode(seq)
 	}
-	for i := 0; i < *n; i++ {
+	// corpus: more target graphs than GOMAXPROCS (update() must reach every one of them)
+	wide := func(id, procs, ngraphs int) {
+		old := runtime.GOMAXPROCS(0)
+		if procs > 0 {
+			runtime.GOMAXPROCS(procs)
+			defer runtime.GOMAXPROCS(old)
+		}
 		st := memory.NewStore()
 		b := NewBlanks()
 		g := &Gen{R: rnd, B: b}
+		seq := Seq{ID: id, Bulk: 2}
+		step := func(s VStmt) {
+			if s.Kind == "construct" {
+				s.Q = g.Query(ctx, st, s.Ins, s.WB, s.Note)
+			}
+			r := Execute(ctx, st, s.Text, seq.Bulk)
+			s.Obs = &Observed{Class: r.Class, Err: r.Err, After: Listing(ctx, st, b)}
+			seq.Stmts = append(seq.Stmts, s)
+		}
+		var gs []string
+		for k := 0; k < ngraphs; k++ {
+			gs = append(gs, fmt.Sprintf("?g%d", k))
+		}
+		all := append([]string{"?src"}, gs...)
+		step(VStmt{Kind: "create", Gs: all, Text: "CREATE GRAPH " + strings.Join(all, ", ") + ";"})
+		data := func(kind string, targets []string, n int) VStmt {
+			var ts []VTriple
+			var tt []string
+			for len(ts) < n {
+				t := g.DataTriple()
+				ts = append(ts, t)
+				tt = append(tt, b.TripleText(t))
+			}
+			kw := "INSERT DATA INTO "
+			if kind == "delete" {
+				kw = "DELETE DATA FROM "
+			}
+			return VStmt{Kind: kind, Gs: targets, Ts: ts, Text: kw + strings.Join(targets, ", ") + " { " + strings.Join(tt, " . ") + " };"}
+		}
+		step(data("insert", []string{"?src"}, 4))
+		ins := data("insert", gs, 3)
+		step(ins)
+		pso := Pool(b)[4] // CONSTRUCT { ?s "p2"@[] ?o } ... WHERE { ?s "p"@[] ?o }
+		for _, add := range []bool{true, false} {
+			c := pso
+			c.Add, c.Outs, c.Ins = add, gs, []string{"?src"}
+			kw, into := "CONSTRUCT", "INTO"
+			if !add {
+				kw, into = "DECONSTRUCT", "IN"
+			}
+			c.Text = fmt.Sprintf("%s { %s } %s %s FROM ?src WHERE { %s };", kw, b.RenderTemplate(c.Tmpl), into, strings.Join(gs, ", "), c.Note)
+			step(c)
+		}
+		del := ins
+		del.Kind, del.Text = "delete", strings.Replace(ins.Text, "INSERT DATA INTO ", "DELETE DATA FROM ", 1)
+		step(del)
+		enc.Encode(seq)
+	}
+	wide(-2, 2, 3)
+	wide(-3, 2, 5)
+	wide(-4, 1, 4)
+	wide(-5, 0, runtime.GOMAXPROCS(0)+1)
+	for i := 0; i < *n; i++ {
+		// every tenth random sequence runs under GOMAXPROCS 1 or 2 with target lists of three graphs
+		wideSeq := i%10 == 9
+		procsOld := 0
+		if wideSeq {
+			procsOld = runtime.GOMAXPROCS(1 + (i/10)%2)
+		}
+		st := memory.NewStore()
+		b := NewBlanks()
+		g := &Gen{R: rnd, B: b, Wide: wideSeq}
 		seq := Seq{ID: i, Bulk: bulks[rnd.Intn(len(bulks))]}
 		if *bulkFlag > 0 {
 			seq.Bulk = *bulkFlag
@@ -191,5 +260,8 @@ func main() {
 			seq.Stmts = append(seq.Stmts, s)
 		}
 		enc.Encode(seq)
+		if procsOld > 0 {
+			runtime.GOMAXPROCS(procsOld)
+		}
 	}
 }
